@@ -137,6 +137,15 @@ func (r *objectSetRemotePhaseReconciler) Reconcile(
 		return nil, controllers.ProbingResult{}, fmt.Errorf("getting existing ObjectSetPhase: %w", err)
 	}
 
+	// An ObjectSetPhase of that name may belong to someone else:
+	// "<objectset>-<phase>" is not unique across ObjectSets ("a-b"+"c" and "a"+"b-c").
+	// Its status says nothing about this ObjectSet's phase, so don't report it and don't relay it.
+	if !metav1.IsControlledBy(currentObjectSetPhase.ClientObject(), objectSet.ClientObject()) {
+		return nil, controllers.ProbingResult{}, &ObjectSetPhaseNotControlledError{
+			ObjectSetPhase: client.ObjectKeyFromObject(currentObjectSetPhase.ClientObject()),
+		}
+	}
+
 	// Report ObjectSetPhase as part of this ObjectSet
 	ref := corev1alpha1.RemotePhaseReference{
 		Name: currentObjectSetPhase.ClientObject().GetName(),
@@ -233,6 +242,16 @@ func (r *objectSetRemotePhaseReconciler) desiredObjectSetPhase(
 		return nil, err
 	}
 	return desiredObjectSetPhase, nil
+}
+
+// ObjectSetPhaseNotControlledError is returned when an ObjectSetPhase with the name
+// of a delegated phase exists, but is not controlled by the reconciled ObjectSet.
+type ObjectSetPhaseNotControlledError struct {
+	ObjectSetPhase client.ObjectKey
+}
+
+func (e *ObjectSetPhaseNotControlledError) Error() string {
+	return fmt.Sprintf("ObjectSetPhase %s exists and is not controlled by this ObjectSet", e.ObjectSetPhase)
 }
 
 func objectSetPhaseName(
